@@ -4,7 +4,7 @@ from vlib import core
 from props import poolcommon as pc
 
 MANIFEST = dict(
-    text='Theorems: one supervision pass acts on the job table exactly as the per-job function tick_job (proved); deadline (first pass after the grace period resolves the job with the recorded status and its own id), never earlier, no other job touched, detection records (now, exit status), result handled before the pass wins, marker written once in every continuation, terminate_job yields Terminated. Known findings for map/imap owner bookkeeping are listed in known_findings.json.',
+    text='Theorems: one supervision pass acts on the job table exactly as the per-job function tick_job (proved); deadline (first pass after the grace period resolves the job with the recorded status and its own id), never earlier, no other job touched, detection records (now, exit status), result handled before the pass wins, marker written once in every continuation, terminate_job yields Terminated. Known findings for map/imap owner bookkeeping are listed in known_findings.json. The result handler\'s drain-loop join (_join_exited_workers(shutdown=True)) treats every job exactly as a pass does. Refuted with witnesses (known findings): loss not delivered to an ordered imap consumer, spurious loss for finished parts of a map job, owner gone but never marked when its acknowledgement arrives after the reaping pass.',
     note='Trusted: Coq kernel; hand-written model Model/Pool.v validated on every run against the real billiard.pool parent-side code (harness/pool_driver.py: fake processes, fake clock, recorded signals); event-level atomicity; worker side and OS not modelled here (C03 covers the worker loop). Partial: "for every kind of job handle" is refuted for ordered imap (known finding D4) and for ACKs handled after reaping (D11); supervision period P is a parameter (passes are events).',
     technique='Coq proof (invariants by induction over all event histories of an executable pool model) + differential correspondence against the real parent-side code',
     ref='5.4',
